@@ -16,24 +16,43 @@ import (
 // and a 5-nearest query 110 m from one of the meridian points.
 func poleProbe(withHash bool) history {
 	h := history{Level: "server", Pool: "probe"}
-	south := -89.999996 // 0.45 m from the pole, not float32-representable
+	south, nm, step := -89.999996, 70, 0.003 // 0.45 m from the pole, not float32-representable
 	if withHash {
 		// the trigger is a decoded geohash instead: geohash.Decode returns
 		// latitude -90.000000000000014 for this cell on the meridian lon=1
-		south = -89.9999
+		// (40 meridian points, so that they share one leaf with the hash object)
+		south, nm, step = -89.9999, 40, 0.005
 		hash := geohash.EncodeWithPrecision(-90, 1, 9)
 		if lat, _ := geohash.Decode(hash); lat >= -90 {
 			hash = "h00000000"
 		}
-		h.Steps = append(h.Steps, step{Op: "set", ID: "h", Obj: &objSpec{[]string{"HASH", hash}}})
+		h.Steps = append(h.Steps, stepT{Op: "set", ID: "h", Obj: &objSpec{[]string{"HASH", hash}}})
+	}
+	for i := 0; i < nm; i++ {
+		h.Steps = append(h.Steps, stepT{Op: "set", ID: fmt.Sprintf("m%02d", i), Obj: &objSpec{[]string{"POINT", fs(south + float64(i)*step), "1"}}})
 	}
 	for i := 0; i < 70; i++ {
-		h.Steps = append(h.Steps, step{Op: "set", ID: fmt.Sprintf("m%02d", i), Obj: &objSpec{[]string{"POINT", fs(south + float64(i)*0.003), "1"}}})
+		h.Steps = append(h.Steps, stepT{Op: "set", ID: fmt.Sprintf("f%02d", i), Obj: &objSpec{[]string{"POINT", "-89.85", fs(2 + float64(i)*0.01)}}})
+	}
+	h.Steps = append(h.Steps, stepT{Op: "query", Q: &query{Lat: "-89.9", Lon: "1.001", K: 5}})
+	return h
+}
+
+// antimeridianProbe: a decoded geohash one ulp west of -180 (8000000000 ->
+// lon -180.00000000000003) makes the float32 box of its leaf start at
+// -180.00002; for a query on +180 the geodesic bound then takes the "corner"
+// branch with a negative longitude difference and returns 1.7 m for a leaf
+// that holds an object at distance 0.
+func antimeridianProbe() history {
+	h := history{Level: "server", Pool: "probe"}
+	h.Steps = append(h.Steps, stepT{Op: "set", ID: "h", Obj: &objSpec{[]string{"HASH", "8000000000"}}})
+	for i := 0; i < 40; i++ {
+		h.Steps = append(h.Steps, stepT{Op: "set", ID: fmt.Sprintf("w%02d", i), Obj: &objSpec{[]string{"POINT", fs(float64(i) * 0.01), "-180"}}})
 	}
 	for i := 0; i < 70; i++ {
-		h.Steps = append(h.Steps, step{Op: "set", ID: fmt.Sprintf("f%02d", i), Obj: &objSpec{[]string{"POINT", "-89.85", fs(2 + float64(i)*0.01)}}})
+		h.Steps = append(h.Steps, stepT{Op: "set", ID: fmt.Sprintf("e%02d", i), Obj: &objSpec{[]string{"POINT", fs(float64(i) * 0.01), "179.9999991"}}})
 	}
-	h.Steps = append(h.Steps, step{Op: "query", Q: &query{Lat: "-89.9", Lon: "1.001", K: 5}})
+	h.Steps = append(h.Steps, stepT{Op: "query", Q: &query{Lat: "0", Lon: "180", K: 1}})
 	return h
 }
 
@@ -47,8 +66,11 @@ func TestC13_KnownProbes(t *testing.T) {
 	defer conn.Close()
 	var reproduced []string
 	var replay *history
-	for _, variant := range []string{"collection", "server", "collection+hash", "server+hash"} {
-		level := strings.TrimSuffix(variant, "+hash")
+	for _, variant := range []string{"collection", "server", "collection+hash", "server+hash", "collection+antimeridian", "server+antimeridian"} {
+		level := variant
+		if i := strings.Index(variant, "+"); i >= 0 {
+			level = variant[:i]
+		}
 		c.Case()
 		var be backend
 		if level == "collection" {
@@ -58,6 +80,9 @@ func TestC13_KnownProbes(t *testing.T) {
 		}
 		be.reset()
 		h := poleProbe(strings.HasSuffix(variant, "+hash"))
+		if strings.HasSuffix(variant, "+antimeridian") {
+			h = antimeridianProbe()
+		}
 		h.Level = level
 		var q query
 		for _, st := range h.Steps {
@@ -95,7 +120,8 @@ func TestC13_KnownProbes(t *testing.T) {
 			}
 		}
 		if bad {
-			reproduced = append(reproduced, fmt.Sprintf("%s: results at %.2f m, the 5 nearest are at %.2f %.2f %.2f %.2f %.2f m", variant, got, refs[0].d, refs[1].d, refs[2].d, refs[3].d, refs[4].d))
+			reproduced = append(reproduced, fmt.Sprintf("%s: results at %.2f m, the nearest are at %.2f %.2f %.2f m", variant, got, refs[0].d, refs[1].d, refs[2].d))
+			_ = refs[2]
 			c.Label("reproduced:" + variant)
 			if replay == nil {
 				replay = &h
@@ -105,7 +131,7 @@ func TestC13_KnownProbes(t *testing.T) {
 	if len(reproduced) == 0 {
 		return
 	}
-	what := fmt.Sprintf("NEARBY LIMIT 5 next to a pole does not return the 5 nearest (node boxes rounded beyond -90 get the distance to the pole as lower bound): %v", reproduced)
+	what := fmt.Sprintf("NEARBY LIMIT k does not return the k nearest: a node box reaching beyond -90 (or -180) gets a lower bound larger than the distance of its members: %v", reproduced)
 	if ev.KnownActive(findingPole) {
 		c.Known(findingPole, what)
 	} else {
